@@ -263,8 +263,27 @@ CallSections == {"concurrency", "strategy", "services"}
 CallVar(v) == IF v = "" THEN "call" ELSE v \o "-call"
 CallCopies == {PA(p.path, p.form, CallVar(p.var), p.code, p.alt) :
                  p \in {q \in BasePositions : Len(q.path) >= 3 /\ q.path[1] = "jobs" /\ q.path[3] \in CallSections}}
-Positions == BasePositions \cup CallCopies
-IsCallCopy(p) == p \in CallCopies
+(* Sibling configurations of the matrix: a value of a row / of an include combination / of an exclude combination,
+   judged while the OTHER sections are absent ("none"), literal ("lit"), given as one expression ("expr") or hold an
+   expression element ("elem"); rows are literal or one expression.  var = sib-<rows>-<include>-<exclude>.
+   The verdict (row of jobs.<job_id>.strategy) does not depend on the siblings. *)
+SibStates == {"none", "lit", "expr", "elem"}
+SibVar(r, i, x) == "sib-" \o r \o "-" \o i \o "-" \o x
+MatrixSiblings ==
+  {P(MX \o <<"<row>", "[*]">>, "tmpl", SibVar("lit", i, x), kStr) : i \in SibStates, x \in SibStates}
+  \cup {P(MX \o <<"include", "[*]", "<key>">>, "tmpl", SibVar(r, i, x), kStr) :
+           r \in {"lit", "expr"}, i \in {"lit", "elem"}, x \in SibStates}
+  \cup {P(MX \o <<"exclude", "[*]", "<key>">>, "tmpl", SibVar(r, i, x), kStr) :
+           r \in {"lit", "expr"}, i \in SibStates, x \in {"lit", "elem"}}
+(* The callee of a call job: remote (the positions above), a local file that declares the input / secret, a local file
+   that does not declare it, a local file that cannot be read.  Linted inside a scratch project so that the file is
+   really read.  The verdict does not depend on the callee. *)
+Callees == {"local-declared", "local-undeclared", "local-missing"}
+CalleeVariants ==
+  {P(<<"jobs", J, "with", "<input_id>">>, "tmpl", c, "jobs.<job_id>.with.<with_id>") : c \in Callees}
+  \cup {P(<<"jobs", J, "secrets", "<secret_id>">>, "tmpl", c, "jobs.<job_id>.secrets.<secrets_id>") : c \in Callees}
+Positions == BasePositions \cup CallCopies \cup MatrixSiblings \cup CalleeVariants
+IsCallCopy(p) == p \in CallCopies \cup MatrixSiblings \cup CalleeVariants
 (* Not catalogued, with the reason:
    - event names, webhook `types`, branch/tag filter patterns, `cron`, `needs`: no table key and other
      rules (events, glob, job-needs) report on a placeholder there, so the verdict of the expression
@@ -335,7 +354,8 @@ LintFrameSeqs == {<<f>> : f \in Binary} \cup {<<f, g>> : f \in Binary, g \in Bin
 DeepEmbeddings == {FrameName(s) : s \in LintFrameSeqs}
 
 \* a lone ${{ }} at `runs-on` / `labels` is type-checked (string or array): a bare bool call does not fit
-TypedWhenSingle(p) == p.path \in {<<"jobs", J, "runs-on">>, <<"jobs", J, "runs-on", "labels">>}
+TypedWhenSingle(p) == \/ p.path \in {<<"jobs", J, "runs-on">>, <<"jobs", J, "runs-on", "labels">>}
+                      \/ p.var = "local-declared"      \* the declared input is typed string by the callee
 AllEmbeddings == {"wrap", "upper", "and", "or", "arg", "index", "not", "cmp", "deep", "lower", "mixed",
                   "text", "second", "direct", "ternary", "nand"}
 EmbOK(p, n, e) ==
